@@ -3,12 +3,16 @@ mod c01;
 mod c02;
 mod c03;
 mod c04;
+mod c06;
+mod sweep;
 mod c07;
 mod langs;
 mod c08;
 mod c13;
 mod c14;
 mod c15;
+mod c16;
+mod valref;
 mod strsweep;
 mod common;
 mod enumr;
@@ -44,15 +48,25 @@ fn main() {
                 "C02" => c02::run(tier),
                 "C03" => c03::run(tier),
                 "C04" => c04::run(tier),
+                "C06" => c06::run(tier),
                 "C07" => c07::run(tier),
                 "C08" => c08::run(tier),
                 "C13" => c13::run(tier),
                 "C14" => c14::run(tier),
                 "C15" => c15::run(tier),
+                "C16" => c16::run(c16::Which::C16, tier),
+                "C17" => c16::run(c16::Which::C17, tier),
                 _ => {
                     eprintln!("unknown property {id}");
                     2
                 }
+            };
+            std::process::exit(rc);
+        }
+        "worker" => {
+            let rc = match args[2].as_str() {
+                "C06" => sweep::worker_main(&args, c06::families),
+                _ => 2,
             };
             std::process::exit(rc);
         }
@@ -69,6 +83,13 @@ fn main() {
                 "c13-f64" => c13::replay_f64(case),
                 "c15" => c15::replay(case),
                 "c04" => c04::replay(case),
+                "val-tree" => c16::replay_tree(case),
+                "val-op" => c16::replay_op(case),
+                "c06-text" => c06::replay_text(case),
+                "sweep" => match case["prop"].as_str() {
+                    Some("C06") => sweep::replay(case, c06::families),
+                    _ => 2,
+                },
                 e => {
                     eprintln!("unknown replay engine {e}");
                     2
